@@ -1576,7 +1576,7 @@ def natural_sort_key(s: str) -> list[str | int]:
     >>> sorted(a, key=natural_sort_key)
     ['f0', 'f1', 'f2', 'f8', 'f9', 'f10', 'f11', 'f19', 'f20', 'f21']
     """
-    return [int(part) if part.isdigit() else part for part in re.split(r"(\d+)", s)]
+    return [int(part) if part.isdecimal() else part for part in re.split(r"(\d+)", s)]
 
 
 def parse_bytes(s: float | str) -> int:
